@@ -38,6 +38,20 @@ def mixed_pages(tier):
         if ob.name.startswith('read/') and ('PLAIN+' in ob.name or 'DICT+' in ob.name):
             ob.name = 'mixed-pages/' + ob.name[5:]
             out.append(ob)
+    # one arbitrary byte anywhere in the pages of reference-writer chunks WITH a dictionary (headers, dictionary page, level and index
+    # streams): the window skeletons of the real writer have no dictionary pages. Index bit width 2 with 4 entries and width 1 with 2
+    # entries make every masked index legal, so only truncated / lying streams can go wrong (added after seeded C04-dict-index-scan-skipped).
+    shapes = [dict(t=2, s=0, nlv=(5,), enc=8, nd=4, ibw=2, il=0), dict(t=1, s=1, nlv=(4,), enc=2, nd=2, ibw=1, il=0)]
+    if tier != 'quick':
+        shapes += [dict(t=6, s=1, nlv=(3,), enc=8, nd=2, ibw=1, il=0), dict(t=5, s=0, nlv=(3, 2), enc=(8, 0), nd=4, ibw=2, il=0, codec=1),
+                   dict(t=7, s=1, nlv=(3,), enc=8, nd=3, ibw=2, il=0), dict(t=3, s=0, nlv=(4,), enc=8, nd=2, ibw=1, il=0, openm=1)]
+    for sh in shapes:
+        if tier == 'quick':
+            for d0 in range(0, 96, 4):       # page regions of these shapes are 48..90 bytes long (positions wrap at the footer)
+                out.append(c06.shape(damage=4, damage0=d0, timeout=300, max_paths=400000, **sh))
+        else:
+            for d0 in range(0, 192):         # one position per obligation
+                out.append(c06.shape(damage=1, damage0=d0, timeout=1500, max_paths=400000, **sh))
     return out
 
 
